@@ -534,11 +534,31 @@ func (w *World) Struct(p *packages.Package, name string) (*types.Named, *types.S
 }
 
 // Field returns the field object of a struct by name; UNDECIDED if absent.
+// flatFields lists the fields of a struct including those promoted from
+// embedded structs of the repository (grouping related fields into an embedded
+// unexported struct keeps every selector valid; the roles stay with the fields).
+func flatFields(st *types.Struct) []*types.Var {
+	var out []*types.Var
+	for i := 0; i < st.NumFields(); i++ {
+		f := st.Field(i)
+		if f.Embedded() {
+			if n := namedOf(f.Type()); n != nil && n.Obj().Pkg() != nil && strings.HasPrefix(n.Obj().Pkg().Path(), modPath) {
+				if est, ok := n.Underlying().(*types.Struct); ok {
+					out = append(out, flatFields(est)...)
+					continue
+				}
+			}
+		}
+		out = append(out, f)
+	}
+	return out
+}
+
 func (w *World) Field(p *packages.Package, structName, field string) *types.Var {
 	_, st := w.Struct(p, structName)
-	for i := 0; i < st.NumFields(); i++ {
-		if st.Field(i).Name() == field {
-			return st.Field(i)
+	for _, f := range flatFields(st) {
+		if f.Name() == field {
+			return f
 		}
 	}
 	if v := w.resolveFieldRole(p, structName, field); v != nil {
@@ -553,9 +573,9 @@ func (w *World) Field(p *packages.Package, structName, field string) *types.Var 
 func (w *World) FieldByType(p *packages.Package, structName, role string, pred func(types.Type) bool) *types.Var {
 	_, st := w.Struct(p, structName)
 	var found []*types.Var
-	for i := 0; i < st.NumFields(); i++ {
-		if pred(st.Field(i).Type()) {
-			found = append(found, st.Field(i))
+	for _, f := range flatFields(st) {
+		if pred(f.Type()) {
+			found = append(found, f)
 		}
 	}
 	if len(found) > 1 {
@@ -571,9 +591,9 @@ func (w *World) FieldByType(p *packages.Package, structName, role string, pred f
 		// carried the role when the table was frozen keeps it, and the rules about the
 		// role's representation (key components, guarded-by) judge the new form
 		if hint, ok := roleHints[role]; ok {
-			for i := 0; i < st.NumFields(); i++ {
-				if st.Field(i).Name() == hint {
-					return st.Field(i)
+			for _, f := range flatFields(st) {
+				if f.Name() == hint {
+					return f
 				}
 			}
 		}
